@@ -63,6 +63,21 @@ def fam_auto(seed, n):
         nodes = {'n0': NodeSpec(['ao'], {}), 'n1': NodeSpec(['li'], {})}
         edges = [EdgeSpec('n0/ao/x', 'n1/li/u', fp()), EdgeSpec('n1/li/x', 'n0/ao/u', fp())]
         out.append((f"FA:{seed}:{k}:npar={npar}", ModelSpec('m', ops, nodes, edges, note=f"auto export, {npar} parameters")))
+    # more than nine state variables, nonlinear in the high-numbered ones (two-digit y(k) in DFDU/DFDP expressions)
+    for k in range(max(1, n // 8)):
+        fp = FP()
+        e = X.add(X.add(X.mul(X.neg(V('k')), X.mul(V('x'), V('x'))), X.mul(V('g'), X.call('tanh', V('u')))),
+                  X.mul(V('c'), V('w')))
+        sq = OpSpec('sq', [('x', 'de', e)], {'x': ('state', fp()), 'u': ('input', fp()), 'w': ('input', fp()),
+                                            'k': ('const', fp()), 'g': ('const', fp()), 'c': ('const', fp())}, output='x')
+        ops = {'sq': sq, 'li': families.op_leaky(fp)}
+        m = 10 + k
+        nodes = {f"r{i}": NodeSpec(['sq'], {('sq', 'x'): fp(), ('sq', 'k'): fp()}) for i in range(m)}
+        nodes['n1'] = NodeSpec(['li'], {})
+        edges = [EdgeSpec(f"r{i}/sq/x", f"r{(i + 1) % m}/sq/u", fp()) for i in range(m)]
+        edges += [EdgeSpec(f"r{m - 1}/sq/x", 'n1/li/u', fp()), EdgeSpec('n1/li/x', 'r0/sq/w', fp())]
+        out.append((f"FA:{seed}:big{k}:states={m + 1}", ModelSpec('m', ops, nodes, edges,
+                                                                   note=f"auto export, {m + 1} state variables")))
     return out
 
 
